@@ -1,4 +1,6 @@
 """C06 - the output is always a well-formed pcapng of well-formed, reassemblable packets."""
+import os
+
 from ..rng import Rng
 from .. import gen, world, observer, tlsref as T
 from ..harness import Outcome
@@ -16,7 +18,7 @@ class C06(Prop):
             "(-p -m -c -a -g), plus a sweep over record length n x carrying packets k (k in 1..12); every output is read by "
             "the strict pcapng reader, frame parser and TCP reassembler; non-trivial = the output contains at least one "
             "packet; distinct = distinct scenario digests")
-    reach = ["mode_healthy", "mode_faulty", "mode_foreign", "mode_empty", "mode_nk", "mode_bulk", "output_path_holds_older_longer_file", "opt_m", "opt_c", "opt_a", "opt_g",
+    reach = ["mode_healthy", "mode_faulty", "mode_foreign", "mode_empty", "mode_nk", "mode_bulk", "mode_huge", "output_path_holds_older_longer_file", "opt_m", "opt_c", "opt_a", "opt_g",
              "opt_p", "opt_l", "opt_d", "output_has_tcp", "output_has_udp", "zero_length_record", "record_smaller_than_k"]
 
     def plan(self, tier):
@@ -28,6 +30,23 @@ class C06(Prop):
     def gen(self, seed, idx, tier):
         R = Rng(seed, "C06")
         mode = ["healthy", "faulty", "nk", "healthy", "foreign", "faulty", "nk", "empty" if idx % 80 == 7 else "healthy"][idx % 8]
+        if tier != "quick" and idx % 4000 == 1500 and os.environ.get("VERIF_HUGE") == "1":
+            # (opt-in: one such export costs about five CPU minutes, mostly TLExport's own output construction)
+            # a very long conversation: more than 65535 exported frames (33 000 one-segment records and their ACK
+            # companions), so that per-conversation counters of the output (IP identification, ...) pass 2^16
+            mode = "huge"
+            used = set()
+            c = gen.gen_tls_conn(R.fork("conn"), 0, {"records_max": 0, "shapes": False, "tls13_pad": False, "etm_pct": 0,
+                                                     "ticket_pct": 0, "isn_wrap": False},
+                                 used, pair=R.choice([(T.TLS12, 0x009C), (T.TLS13, 0x1301), (T.TLS12, 0xCCA8)]))
+            d = R.choice("cs")
+            c["recs"] = [{"k": i, "d": d, "n": 1 + (i % 3)} for i in range(33000)]
+            c["fl"] = [500] * 66
+            c["close"] = False
+            c["merge_first"] = False
+            c["hello_req"] = None
+            spec = {"prop": "C06", "mode": mode, "conns": [c], "tap": gen.gen_tap(R.fork("tap")), "cli": {}}
+            return spec
         if idx % 16 == 3:
             # one direction carries more than 64 KiB (up to ~150 KiB): running totals of the output's sequence and
             # acknowledgement numbers pass 2^16 and 2^17
@@ -140,6 +159,8 @@ class C06(Prop):
             # the output path already holds a longer, valid pcapng from an earlier export (here: three sections)
             kw["pre_out"] = ex["capture"] * 3
             out.count("reach:output_path_holds_older_longer_file")
+        if spec.get("mode") == "huge":
+            kw["cpu"] = 600
         res = run_export(lane, spec, ex, out, infile_name="in.pcap" if spec.get("container", {}).get("fmt") == "pcap" else "in.pcapng", **kw)
         out.count("reach:mode_" + spec.get("mode", "?"))
         cli = spec.get("cli", {})
